@@ -84,3 +84,37 @@ func VH_C16_auth_body_post() {
 	vAssert("C16,C17.later-rendering-carries-its-own-relaystate", vAnd(okR2 == (relay2 != ""), vImplies(relay2 != "", vAnd(escR2, rs2 == relay2))))
 	var _ *etree.Document
 }
+
+// VH_C16_from_document_twice: the three *FromDocument form builders called repeatedly in one process: a page
+// already returned is not changed by a later rendering (no shared output memory), a later rendering is as
+// good as the first, and rendering the same document again gives the same page (the document is not consumed).
+func VH_C16_from_document_twice() {
+	sp := vhBuilderSP()
+	kind := vChoice("kind", 3)
+	build := func(relay string, doc *etree.Document) ([]byte, error) {
+		switch kind {
+		case 0:
+			return sp.BuildAuthBodyPostFromDocument(relay, doc)
+		case 1:
+			return sp.BuildLogoutBodyPostFromDocument(relay, doc)
+		}
+		return sp.BuildLogoutResponseBodyPostFromDocument(relay, doc)
+	}
+	doc1, doc2 := vhSomeDoc(), vhSomeDoc()
+	relay1, relay2 := vString("relay1"), vString("relay2")
+	out1, err1 := build(relay1, doc1)
+	vDebugErr("first", err1)
+	if err1 != nil {
+		return
+	}
+	snapshot := vStr(out1)
+	out2, err2 := build(relay2, doc2)
+	vDebugErr("second", err2)
+	vAssert("C16,C17,C18.earlier-page-unaffected-by-a-later-rendering", vStr(out1) == snapshot)
+	vAssert("C16,C17.a-later-rendering-succeeds-like-the-first", err2 == nil)
+	out3, err3 := build(relay1, doc1)
+	vDebugErr("third", err3)
+	vReach("rendered-three-times", err2 == nil && err3 == nil)
+	vAssert("C16,C17.rendering-the-same-document-again-gives-the-same-page", err3 == nil && vStr(out3) == snapshot)
+	_ = out2
+}
